@@ -116,24 +116,16 @@ def rule_order_wrapper(ctx: Ctx) -> None:
     # 1. unwrap(): every return is a reversed list built in list order
     fn = repo.anchor(OPS, "OneQubitGateWrapper.unwrap")
     ctx.touch(m, fn)
-    rets = [r for r in ast.walk(fn) if isinstance(r, ast.Return)]
-    for r in rets:
-        if isinstance(r.value, ast.Call) and r.value.args and not (isinstance(r.value.func, ast.Name) and r.value.func.id in ("list", "tuple", "reversed")) \
-                and any(isinstance(x, ast.Subscript) and isinstance(x.slice, ast.Slice) and x.slice.step is not None and norm(x.slice.step) == "-1" for x in ast.walk(r.value)):
-            raise AnalysisError(f"OneQubitGateWrapper.unwrap: the reversed list is post-processed by `{short(r.value.func)}` before it is returned; not decided")
-        b, d = order.iter_direction(r.value)
-        built_fwd = True
-        for n in ast.walk(fn):
-            if isinstance(n, ast.Assign) and norm(n.targets[0]) == b and isinstance(n.value, ast.ListComp):
-                _, dd = order.iter_direction(n.value.generators[0].iter)
-                built_fwd = built_fwd and dd == 1 and ("self.operations[" in norm(n.value.elt) or "zip(self.operations" in norm(n.value.generators[0].iter))
-        if d == -1 and built_fwd:
-            ctx.ok("order.wrapper", m, r, what="unwrap returns the reversed list (application order)")
-        else:
-            ctx.fail("order.wrapper", m, r,
-                     f"OneQubitGateWrapper.unwrap returns `{short(r.value)}`; a wrapped list is a matrix product (last listed gate acts "
-                     f"first), so the application sequence handed to the compilers must be the reversed list",
-                     func="OneQubitGateWrapper.unwrap", construct=f"unwrap: returns {short(r.value, 60)}")
+    from .c13 import unwrap_model
+    _fn, bad, cases = unwrap_model(repo)
+    order_bad = [x for x in bad if "per-gate noise" in x or "fails" in x] or bad
+    if order_bad:
+        ctx.fail("order.wrapper", m, fn,
+                 f"OneQubitGateWrapper.unwrap: a wrapped list is a matrix product (last listed gate acts first), so the application sequence "
+                 f"handed to the compilers must be the reversed list: {order_bad[0]}",
+                 func="OneQubitGateWrapper.unwrap", construct="unwrap: application sequence on the wrapper model")
+    else:
+        ctx.ok("order.wrapper", m, fn, what=f"unwrap returns the application order on {cases} model wrappers")
     base = repo.anchor(OPS, "OperationBase.unwrap")
     # 2. matrix accumulations in list order
     for rel, q in ((OPS, "local_clifford_to_matrix_map"), (NM, "LocalCliffordError.apply")):
